@@ -59,7 +59,7 @@ func leanStrList(xs []string) string {
 }
 
 func genInventory(c *ctx) (string, error) {
-	var mapRanges, mapRangeClasses, loops, panicSites, unguarded, globalWrites, sharedWrites []string
+	var mapRanges, mapRangeClasses, loops, loopFuncs, panicSites, unguarded, globalWrites, sharedWrites []string
 	perMessageFresh := false
 	for _, suffix := range inventoryPkgs {
 		p := c.pkg(suffix)
@@ -147,6 +147,7 @@ func genInventory(c *ctx) (string, error) {
 						}
 					case *ast.ForStmt:
 						if x.Cond == nil {
+							loopFuncs = append(loopFuncs, fn)
 							loops = append(loops, fn+": for {}")
 						}
 					case *ast.IndexExpr:
@@ -212,6 +213,7 @@ func genInventory(c *ctx) (string, error) {
 	}
 	fmt.Fprintf(&sb, "/-- range-over-map sites whose order-insensitivity the extractor could not establish structurally -/\ndef mapRangesUnclassified : List String := %s\n\n", leanStrListNL(unclassified))
 	fmt.Fprintf(&sb, "/-- every `for` without a condition -/\ndef unboundedLoops : List String := %s\n\n", leanStrListNL(loops))
+	fmt.Fprintf(&sb, "/-- the functions these loops are in -/\ndef unboundedLoopFuncs : List String := %s\n\n", leanStrListNL(dedupStrings(loopFuncs)))
 	fmt.Fprintf(&sb, "/-- every expression that can panic on some value: index/slice on non-maps, explicit dereference, type assertion, panic call -/\ndef panicSites : List String := %s\n\n", leanStrListNL(panicSites))
 	fmt.Fprintf(&sb, "/-- every assignment whose target is (reached through) a package-level variable -/\ndef globalWrites : List String := %s\n\n", leanStrListNL(globalWrites))
 	fmt.Fprintf(&sb, "/-- in the parse entry points and the extension methods: assignments through a parameter or the receiver, as \"pkg.func: root: target\" -/\ndef sharedWrites : List String := %s\n\n", leanStrListNL(sharedWrites))
@@ -270,4 +272,28 @@ func copiesOpts(c *ctx) bool {
 		})
 	}
 	return repointed && ok
+}
+
+func dedupStrings(xs []string) []string {
+	seen := map[string]bool{}
+	var out []string
+	for _, x := range xs {
+		if !seen[x] {
+			seen[x] = true
+			out = append(out, x)
+		}
+	}
+	sort.Strings(out)
+	return out
+}
+
+// isRowIterator: `for f.NextRow() { ... }` - the row iterator of the csv package, which consumes a finite reader
+// (encoding/csv returns io.EOF or an error at the end of the member's bytes; both end the iteration).
+func isRowIterator(cond ast.Expr) bool {
+	call, ok := cond.(*ast.CallExpr)
+	if !ok || len(call.Args) != 0 {
+		return false
+	}
+	sel, ok := call.Fun.(*ast.SelectorExpr)
+	return ok && sel.Sel.Name == "NextRow"
 }
